@@ -13,21 +13,7 @@ func (runInfo *runInfoStruct) invokeLetExpr() {
 
 	// IdentExpr
 	case *ast.IdentExpr:
-		if runInfo.rv.CanAddr() {
-			switch runInfo.rv.Kind() {
-			case reflect.Bool, reflect.String, reflect.Float32, reflect.Float64,
-				reflect.Int, reflect.Int8, reflect.Int16, reflect.Int32, reflect.Int64,
-				reflect.Uint, reflect.Uint8, reflect.Uint16, reflect.Uint32, reflect.Uint64, reflect.Uintptr,
-				reflect.Slice, reflect.Map, reflect.Ptr, reflect.Chan, reflect.Func:
-				// a number, string or boolean read from a slice element, struct field or
-				// other variable is a value of its own, not a view of where it was read;
-				// a slice, map, pointer, channel or function keeps referring to the same
-				// data, but not to the slot it was read from
-				value := reflect.New(runInfo.rv.Type()).Elem()
-				value.Set(runInfo.rv)
-				runInfo.rv = value
-			}
-		}
+		runInfo.rv = ownValue(runInfo.rv)
 		if runInfo.env.SetValue(expr.Lit, runInfo.rv) != nil {
 			runInfo.err = nil
 			runInfo.env.DefineValue(expr.Lit, runInfo.rv)
@@ -472,4 +458,25 @@ func (runInfo *runInfoStruct) invokeLetDerefExpr(expr *ast.DerefExpr) {
 	}
 	elem.Set(value)
 	runInfo.rv = value
+}
+
+// ownValue returns rv as a value of its own when it still refers to the slice
+// element, struct field or variable it was read from: a number, string or boolean
+// is copied; a slice, map, pointer, channel or function keeps referring to the
+// same data, but not to the slot it was read from. Struct values keep their
+// identity.
+func ownValue(rv reflect.Value) reflect.Value {
+	if !rv.IsValid() || !rv.CanAddr() {
+		return rv
+	}
+	switch rv.Kind() {
+	case reflect.Bool, reflect.String, reflect.Float32, reflect.Float64,
+		reflect.Int, reflect.Int8, reflect.Int16, reflect.Int32, reflect.Int64,
+		reflect.Uint, reflect.Uint8, reflect.Uint16, reflect.Uint32, reflect.Uint64, reflect.Uintptr,
+		reflect.Slice, reflect.Map, reflect.Ptr, reflect.Chan, reflect.Func:
+		value := reflect.New(rv.Type()).Elem()
+		value.Set(rv)
+		return value
+	}
+	return rv
 }
